@@ -64,9 +64,9 @@ Proof.
   unfold read_key. rewrite <- app_assoc. rewrite (read_u_pack _ _ _ _ Ha). cbn [bind].
   destruct (key_in k t) eqn:E.
   - pose proof (key_in_len t k Hw E) as Hl. cbn [Z.eqb].
-    replace 4 with (len k) by (unfold len; lia). rewrite read_upto_app. cbn [fst snd]. rewrite E. reflexivity.
+    replace 4 with (len k) by (unfold len; lia). rewrite read_upto_app. cbn [fst snd]. rewrite Z.eqb_refl. cbn [negb]. rewrite E. reflexivity.
   - unfold nonempty_key in Hk. destruct (len k =? 0) eqn:E0; [discriminate|].
-    rewrite read_upto_app. cbn [fst snd andb]. reflexivity.
+    rewrite read_upto_app. cbn [fst snd andb]. rewrite Z.eqb_refl. reflexivity.
 Qed.
 
 Lemma unicode1_rt u bs n rest : w_unicode u 1 = Ok (bs, n) -> r_unicode 1 (bs ++ rest) = Ok (u, rest).
